@@ -1218,6 +1218,8 @@ class Call(_CallOrLoad, Op):
         match port:
             case InPort(_, offset) if offset == self._function_port_offset():
                 return tys.FunctionKind(self.signature)
+            case _ if port.offset == -1:
+                return tys.OrderKind()
             case _:
                 return tys.ValueKind(_sig_port_type(self.instantiation, port))
 
